@@ -730,6 +730,18 @@ impl<T: PPGEvaluatorStrategy> PPGEvaluator<T> {
                                 //if it's from a multi-output job that was producing different
                                 //stuff before,
                                 filter_if_renamed(job_id_a)
+                                    // ... unless the consumer gets no new link in this run (it
+                                    // failed, or was never started): what it last consumed is all
+                                    // we have to validate it with when the run is resumed.
+                                    || node_idx_b.map_or(false, |b| {
+                                        let consumer = &self.jobs[*b as usize];
+                                        !(consumer.history_output.is_some()
+                                            || consumer.state
+                                                == JobState::Ephemeral(
+                                                    JobStateEphemeral::FinishedSkipped,
+                                                ))
+                                            || consumer.state.is_upstream_failure()
+                                    })
                             }
                         }
                     } else {
